@@ -232,7 +232,8 @@ def make_queries(tier):
                 return replay_dh(E, p0c)
             I = E.I
             _install(I, E)
-            I.loop_bound = C["dh"] + 2
+            # a second pass (after the pad2 fallback) restarts from an empty pad and may push up to start + growth bytes
+            I.loop_bound = p0c + C["dh"] + 2
             I.recursion_bound = 3
             base = E.int("base", 2 ** 16)  # everything but pad/pad2 (includes the "pad" label)
             E.assume(uge(base.e, bv(8)))
